@@ -18,7 +18,8 @@
      "tsp"     in  = [entry, [sel,c], keyed, size, off, events, stage, runs]      out = [outcome per run]
                entry 0 Timestamped::new | 1 attach_timestamps(ts_fn) | 2 to_timestamped (+ key_by when keyed);
                stage 0 stamped stream | 1 key_by_window | 2 group_by_(key_and_)window;
-               runs = [[parts, threads, coll] ..] on clones of one collection; coll 0 collect_seq/par,
+               runs = [[parts, threads, coll] ..] on clones of one collection (parts -1: partitions
+               None, -2: collect(); observed run ["=", i] = same outcome as run i); coll 0 collect_seq/par,
                1 collect_*_sorted, 2 collect_par_sorted_by_key, 3 checkpointing runner;
                rows [k,ts,[v]] / [k,start,end,[v]] / [k,start,end,[v..]] in collector order
      "wjoin"   in  = [jkind, keyed, lside, rside, xp, runs]    out = [outcome per run], rows [k,start,end,L,R]
@@ -399,8 +400,8 @@ Definition apply_coll (coll : Z) (rows : list row) : list row :=
 (* the collector's output order is determined (no HashMap iteration shows through) *)
 Definition exact_order (hashed : bool) (coll : Z) : bool := (coll =? 1) || (coll =? 2) || negb hashed.
 Definition coll_ok (stage parts coll : Z) : bool :=
-  (0 <=? coll) && (coll <=? 3) && (0 <=? parts)
-  && implb (coll =? 2) (1 <=? parts)
+  (0 <=? coll) && (coll <=? 3) && (-2 <=? parts)
+  && implb (coll =? 2) ((1 <=? parts) || (parts =? -1))
   && implb (stage =? 0) ((coll =? 0) || (coll =? 3)).
 
 Definition agree_run (hashed : bool) (coll : Z) (obs : robs) (model : outcome (list row)) : bool :=
@@ -497,8 +498,12 @@ Definition known_side (entry sel c size off : Z) (evs : list event) (stage : Z) 
 Definition dec_runspec (j : J) : option (Z * Z) :=
   match j with JL [JI parts; JI _threads; JI coll] => Some (parts, coll) | _ => None end.
 
+(* parts > 0: collect_par(_, Some(parts)); 0: collect_seq; -2: collect() (= collect_seq);
+   -1: collect_par(_, None) - the partition count is the runner's / planner's choice, the model is
+   run on the unsplit input (nothing compared depends on the partitioning: c13_grouping_mode_independent,
+   c13_window_join_mode_independent) *)
 Definition parts_of {A} (parts : Z) (l : list A) : list (list A) :=
-  if parts =? 0 then [l] else split_parts parts l.
+  if parts <=? 0 then [l] else split_parts parts l.
 
 (* a run printed as ["=", i] had the same outcome as run i of the same case *)
 Definition resolve_runs (obs : list J) : list J :=
